@@ -18,12 +18,13 @@ RULE = (
     "children next to a failing sibling whose StartStage is held back until everything else has drained) x delivery "
     "schedules - also with a transient 'database is locked' injected at the COMMIT, or at the first write, of every handler transaction in turn - x delivery "
     "schedule (random / LIFO order, withheld acks, one message held back k steps); plus the same family run by three "
-    "worker threads interleaved at SQL-statement granularity (random / PCT schedules). After the queue is drained the "
+    "worker threads interleaved at SQL-statement granularity (random / PCT schedules), and every pair of co-enabled messages "
+    "of ten shapes handled by two workers under the one-preemption schedules. After the queue is drained the "
     "four quiescence predicates are evaluated on store.retrieve(). Non-trivial = quiescent run whose final state is not "
     "all-SUCCEEDED; distinct = (workflow status, sorted multiset of stage statuses, spec shape)."
 )
 ASSUMPTIONS = ["SQLite backend", "quiescence = queue_messages empty after virtual-time warps; wait-budget exhaustion (max_stage_wait_retries=6) ending TERMINAL is legal and counted"]
-MIN_OBS = {"quiescent_runs": {"quick": 1000, "thorough": 20000}, "nonsuccess_final_states": {"quick": 100, "thorough": 2000}, "late_start_runs": {"quick": 100, "thorough": 800}, "commit_faults_injected": {"quick": 150, "thorough": 1500}}
+MIN_OBS = {"quiescent_runs": {"quick": 1000, "thorough": 20000}, "nonsuccess_final_states": {"quick": 100, "thorough": 2000}, "late_start_runs": {"quick": 100, "thorough": 800}, "commit_faults_injected": {"quick": 150, "thorough": 1500}, "pair_schedule_quiescent_runs": {"quick": 800, "thorough": 10000}}
 TIMEOUT = {"quick": 600, "thorough": 3000}
 
 HOLD_TYPES = ["StartStage", "CompleteStage", "CompleteTask", "RunTask", "CancelStage", "CompleteWorkflow", "ContinueParentStage", "JumpToStage"]
@@ -57,6 +58,10 @@ def gen_cases(tier: str, seed: int) -> list[dict]:
     cases += [{"kind": "race", "i": i, "seed": seed, "runs": 12} for i in range(24 if tier == "quick" else 200)]
     cases += [{"kind": "late_start", "i": i, "seed": seed} for i in range(6 if tier == "quick" else 40)]
     cases += [{"kind": "commit_fault", "i": i, "seed": seed} for i in range(10 if tier == "quick" else 80)]
+    stride = 3 if tier == "quick" else 1
+    for sp in range(10):
+        for phase in range(stride):
+            cases.append({"kind": "pairs", "spec": sp, "seed": seed, "stride": stride, "phase": phase, "sample": 6 if tier == "quick" else 30})
     cases += [{"kind": "commit_fault", "i": i, "seed": seed, "at": "first_write"} for i in range(6 if tier == "quick" else 60)]
     return cases
 
@@ -230,7 +235,20 @@ def _commit_fault(case: dict) -> dict:
     return {"violations": uniq, "obs": dict(obs), "keys": sorted(keys)}
 
 
+def _pairs(case: dict) -> dict:
+    """Every pair of co-enabled messages of a FIFO run handled by two workers under every one-preemption schedule
+    (sampled) - C07's pair exploration - with the quiescence predicates evaluated on the drained result."""
+    from . import c07
+
+    r = c07._serial_pairs(dict(case, kind="serial_pairs", quiescence=True))
+    obs = dict(r["obs"])
+    obs["pair_schedule_quiescent_runs"] = obs.pop("quiescent_runs", 0)
+    return {"violations": r["violations"], "obs": obs, "keys": ["c05" + k for k in r["keys"]]}
+
+
 def run_case(case: dict) -> dict:
+    if case.get("kind") == "pairs":
+        return _pairs(case)
     if case.get("kind") == "race":
         return _race(case)
     if case.get("kind") == "commit_fault":
